@@ -158,6 +158,7 @@ def _acquire(ex, lock, mode):
         if lock.writer is not None:
             raise Deadlock('read lock requested while a write guard is alive')
         lock.readers += 1
+        lock.rowners.append(ex.thread)
     return Guard(lock, mode, ex.thread)
 
 
@@ -169,6 +170,8 @@ def release_guard(ex, g):
         g.lock.writer = None
     else:
         g.lock.readers -= 1
+        if g.owner in g.lock.rowners:
+            g.lock.rowners.remove(g.owner)
     h = ex.hooks.get('released')
     if h is not None:
         h(ex, g.lock)
